@@ -124,9 +124,18 @@ class ControlledPool(ThreadPoolExecutor):
         try:
             r = fn(*args, **kwargs)
         except BaseException as e:  # noqa
-            f.set_exception(e)
+            try:
+                f.set_exception(e)
+            except BaseException:  # noqa
+                # a done-callback let a BaseException escape: a real worker thread would die with it
+                self.escaped_from_callbacks = getattr(self, "escaped_from_callbacks", 0) + 1
         else:
-            f.set_result(r)
+            try:
+                f.set_result(r)
+            except BaseException as e2:  # noqa
+                if isinstance(e2, Exception):
+                    raise
+                self.escaped_from_callbacks = getattr(self, "escaped_from_callbacks", 0) + 1
         return label
 
 
@@ -247,7 +256,7 @@ def run_threadpool(chooser, schema, text, kwargs, eager=False):
     try:
         try:
             fut = py_gql.process_graphql_query(schema, text, runtime=rt, executor_cls=Executor, **kwargs)
-        except Exception as e:
+        except BaseException as e:  # noqa
             pool.shutdown(wait=False)
             return ("raised", e), trace
         steps = 0
@@ -266,7 +275,7 @@ def run_threadpool(chooser, schema, text, kwargs, eager=False):
                 % (steps, dict(LAST_FUTURE_STATS))), trace
     try:
         res = fut.result()
-    except Exception as e:
+    except BaseException as e:  # noqa
         return ("raised", e), trace
     return normalise(res), trace
 
@@ -307,7 +316,7 @@ def run_asyncio(chooser, schema, text, kwargs, in_thread, make_binding_async, ea
             warnings.simplefilter("ignore", RuntimeWarning)
             try:
                 aw = py_gql.process_graphql_query(schema, text, runtime=rt, executor_cls=Executor, **kwargs)
-            except Exception as e:
+            except BaseException as e:  # noqa
                 return ("raised", e), trace
             task = asyncio.ensure_future(aw, loop=loop)
             settle(loop)
@@ -329,7 +338,7 @@ def run_asyncio(chooser, schema, text, kwargs, in_thread, make_binding_async, ea
             leftovers = len(pool.parked) + len(gates.parked)
             try:
                 res = task.result()
-            except (Exception, asyncio.CancelledError) as e:
+            except BaseException as e:  # noqa
                 out = ("raised", e)
             else:
                 out = normalise(res)
